@@ -237,6 +237,44 @@ extern "C" void vp_main() {
   vp_observe("n", o.n);
   d1.m_transport = nullptr;
 }
+#elif defined(H_PLAIN)
+// plain device (ebusd arbitrates itself): real PlainDevice::recv / send / startArbitration on the in-memory transport.
+// One call from an arbitrary arbitration state with 1..L arbitrary buffered bytes: the first byte is delivered unchanged,
+// exactly one byte is consumed, "more buffered" is signalled correctly, and the ONLY thing ever written is the armed master
+// address, directly after a SYN that was the only buffered byte, while no arbitration check is pending (C03 clause (a) at
+// device level); the following symbol decides won/lost by comparison with that address.
+extern "C" void vp_main() {
+  MiniTransport* tr = new MiniTransport();
+  PlainDevice dev(tr);
+  MiniListener lst;
+  dev.setListener(&lst);
+  uint8_t am = vp_nondet_u8();
+  uint8_t ac = vp_nondet_u8() % 2;
+  vp_assume(am != 0xAA || ac == 0);            // a pending check implies an armed address (set together by recv)
+  dev.m_arbitrationMaster = am; dev.m_arbitrationCheck = ac;
+  uint8_t n = static_cast<uint8_t>(1 + vp_nondet_u8() % L);
+  uint8_t s[L];
+  for (int i = 0; i < L; i++) { s[i] = vp_nondet_u8(); if (i < n) tr->append(s[i]); }
+  symbol_t v = 0x55; ArbitrationState as = as_none;
+  result_t r = dev.recv(0, &v, &as);
+  vp_assert("first-buffered-byte-delivered-unchanged", r >= RESULT_OK && v == s[0]);
+  vp_assert("exactly-one-byte-consumed", tr->m_len == static_cast<size_t>(n - 1));
+  vp_assert("more-buffered-signalled-iff-bytes-remain", (r == RESULT_CONTINUE) == (n > 1));
+  bool armed = am != 0xAA;
+  bool mayWrite = armed && ac == 0 && s[0] == 0xAA && n == 1;
+  vp_assert("writes-only-the-arbitration-address-after-a-lone-SYN", tr->m_nw == (mayWrite ? 1u : 0u) && (!mayWrite || tr->m_w[0] == am));
+  if (mayWrite) { vp_assert("arbitration-now-running", as == as_running && dev.m_arbitrationCheck == 1 && dev.m_arbitrationMaster == am); vp_cover("arbitration-address-written"); }
+  if (armed && ac == 1) {
+    vp_assert("echo-decides-arbitration", as == (s[0] == am ? as_won : as_lost) && !dev.isArbitrating());
+    if (s[0] == am) vp_cover("arbitration-won"); else vp_cover("arbitration-lost");
+  }
+  if (!armed) vp_assert("no-arbitration-no-state", as == as_none);
+  // send writes exactly the symbol
+  unsigned before = tr->m_nw;
+  uint8_t x = vp_nondet_u8();
+  vp_assert("send-ok", dev.send(x) == RESULT_OK && tr->m_nw == before + 1);
+  dev.m_transport = nullptr;
+}
 #elif defined(H_INFO)
 // C20: arbitrary INFO frames against an arbitrary info-transfer state: indices into m_infoBuf[17] and the reads of
 // notifyInfoRetrieved (data[0..8]) must stay in bounds (built-in CBMC checks are the obligations here)
